@@ -346,7 +346,7 @@ def mixing_angle(chk, c):
                                     'cos(beta-alpha) >= 0, for every unit eigenvector row ZH(1,:) of either overall sign and every tan(beta) > 0 '
                                     '(|cos(beta-alpha)| > 1e-6)' % what}})
     real = [j for j in jobs if j['constraints'] is not None]
-    res = chk.prove_many(real, timeout_ms=120000)
+    res = chk.prove_many(real, timeout_ms=400000)
     for job, (r, m) in zip(real, res):
         if r == 'sat':
             xv, yv, sbv, cbv = [float(m.real(t)) for t in (x, y, sb, cb)]
